@@ -581,6 +581,9 @@ QUICK_STRATA = [
     dict(crop="Barley", station="tunis_climate.txt", irr_method=0, soil_kind="custom", dz=[0.1] * 12,
          layers=[[0.1, 0.05, 0.12, 0.36, 3000, 100], [1.1, 0.32, 0.50, 0.54, 15, 100]], planting="11/01", fm="none", gw=False,
          n_seasons=2, start_mode="before", off_season=True, iwc={"wc_type": "Prop", "method": "Layer", "depth_layer": [1, 2], "value": ["WP", "WP"]}),
+    # the curve number raised by the field management on a soil whose curve number is already high, through wet winters
+    dict(crop="Wheat", station="brussels_climate.txt", irr_method=0, fm="cnadj", fm_over={"curve_number_adj_pct": 20.0}, ffm="cnadj",
+         soil="Clay", soil_kind="builtin", dz=None, planting="10/20", gw=False, n_seasons=2, start_mode="before", off_season=True),
     # a water table standing exactly at the soil surface
     dict(crop="PaddyRice", station="hyderabad_climate.txt", irr_method=0, gw=True, gw_values=[0.0], soil="Paddy", soil_kind="builtin",
          dz=[0.1] * 12, fm="none", planting="07/15", n_seasons=1, start_mode="before", off_season=True),
